@@ -465,6 +465,8 @@ class SoftwareSwitchBase (object):
       err.xid = 0
     if data is not None:
       err.data = data
+    # The whole error has to fit in the 16 bit length field
+    if err.data is not None: err.data = err.data[:0xffFF - 12]
     self.send(err, connection = connection)
 
   def rx_packet (self, packet, in_port, packet_data = None):
@@ -1224,7 +1226,7 @@ class OFConnection (object):
         message = self.io_worker.peek()
         err = ofp_error(type=OFPET_BAD_REQUEST, code=OFPBRC_BAD_TYPE)
         err.xid = self._extract_message_xid(message)
-        err.data = message[:message_length]
+        err.data = message[:min(message_length, 0xffFF - 12)]
         self.send(err)
       elif reason == OFConnection.ERR_BAD_LENGTH:
         msg_obj, message_length, new_offset = info
@@ -1234,7 +1236,7 @@ class OFConnection (object):
         message = self.io_worker.peek()
         err = ofp_error(type=OFPET_BAD_REQUEST, code=OFPBRC_BAD_LEN)
         err.xid = self._extract_message_xid(message)
-        err.data = message[:message_length]
+        err.data = message[:min(message_length, 0xffFF - 12)]
         self.send(err)
       elif reason == OFConnection.ERR_EXCEPTION:
         ex, raw_message, msg_obj = info
